@@ -164,6 +164,10 @@ impl Str {
     pub fn trim_end<'a>(&'a self) -> (r: &'a Str)
         ensures r@ == trim_end_spec(self@),
     { unimplemented!() }
+    /// other trims an edit may switch to (`trim_end_matches(pat)`, `trim()`, `trim_start()`): present so that the edit is
+    /// judged; nothing is promised about what they strip
+    #[verifier::external_body]
+    pub fn trim_end_matches_any<'a>(&'a self) -> (r: &'a Str) { unimplemented!() }
     /// `str::splitn(n, sep)` (ASSUMED std contract: splitn_spec)
     #[verifier::external_body]
     pub fn splitn<'a>(&'a self, n: usize, sep: char) -> (r: VSplit<'a>)
@@ -540,6 +544,7 @@ impl StreamingLineReader {
 //@extract method bigtools/src/utils/file/streaming_linereader.rs read "impl<B: BufRead> StreamingLineReader<B>"
 //@rule R16
 //@sub /Option<io::Result<&'_ str>>/ => Option<Result<&'_ Str, IoErr>> min=1
+//@sub /\.trim_(?:end|start)_matches\((?:[^()]|\([^()]*\))*\)/ => .trim_end_matches_any() min=0
 //@ret r
 //@sig
     ensures
